@@ -2,6 +2,7 @@ package nfs
 
 import (
 	"encoding/binary"
+	"sync"
 	"time"
 
 	"github.com/goose-lang/primitive/disk"
@@ -28,6 +29,9 @@ type Nfs struct {
 	verf nfstypes.Writeverf3
 	// statistics
 	stats [NUM_NFS_OPS]stats.Op
+	// serializes renames between two directories, the only requests
+	// that change which directory is an ancestor of which
+	renameMu sync.Mutex
 }
 
 func MakeNfs(d disk.Disk) *Nfs {
